@@ -347,6 +347,10 @@ fn run(e: &Engine) {
     let pl = Partitioned { alpha: crate::props::c19::LIST_ALPHABET, max_len: e.tier.pick(6, 8), prefix_len: 2 };
     let plr = &pl;
     e.enumerate::<Case, _, _>("all-strings-over-list-alphabet", pl.parts(), move |part, f| plr.run(part, &mut |s| f(Case::List { bytes: B(s.to_vec()) })), check);
+    if e.tier == crate::engine::Tier::Thorough {
+        e.fuzz("fuzz-c01_run", "c01_run", 6_000_000, |b| Case::Class { bytes: B(b.to_vec()) }, check);
+        e.fuzz("fuzz-c01_lists", "c01_lists", 6_000_000, |b| Case::List { bytes: B(b.to_vec()) }, check);
+    }
     let _ = fail_unused;
 }
 
